@@ -9,6 +9,7 @@ import Driver.Ops
 import Driver.Typing
 import Driver.Grpc
 import Driver.Spec
+import Driver.HeapD
 /- line protocol: one request per line on stdin, one reply per line on stdout -/
 open Drv
 
@@ -57,6 +58,9 @@ def step (st : AllSt) (line : String) : AllSt × String :=
   | some (s, r) => ({ st with grpc := s }, r)
   | none =>
   match handleSpec st.wire toks with
+  | some r => (st, r)
+  | none =>
+  match handleHeapD toks with
   | some r => (st, r)
   | none => (st, "bad-op")
 
